@@ -104,3 +104,41 @@ Lemma ns_persist_first_refuted :
   /\ index_of "b" (nt_mem (ns_run true t0 [NsAssert "b"; NsRestart])) = None
   /\ index_of "c" (nt_mem (ns_run true t0 [NsAssert "b"; NsRestart; NsAssert "c"])) = Some 1%nat.
 Proof. vm_compute. repeat split. Qed.
+
+(** ** several documents through one entry point: every document is parsed against its own context *)
+Lemma ns_merge_nil doc : ns_merge [] doc = doc.
+Proof. unfold ns_merge. cbn. apply app_nil_r. Qed.
+
+Lemma parse_stream_in_fresh v fuel eof ts :
+  fst (parse_stream_in v [] fuel eof ts) = fst (parse_stream v fuel eof ts).
+Proof.
+  unfold parse_stream_in, parse_stream.
+  destruct ts as [|[[]| | | |] ts1]; try reflexivity.
+  destruct (parse_jv (jv_fuel fuel) ts1) as [[[] ts2]|]; try reflexivity.
+  destruct (is_context_id l); [|reflexivity].
+  destruct (namespaces_of v l); try reflexivity.
+  rewrite ns_merge_nil. destruct (stream_loop v a fuel eof false ts2). reflexivity.
+Qed.
+
+(** reading a sequence of documents with a fresh parser per document = mapping the
+    single-document parser over the sequence *)
+Theorem read_pages_fresh v pages :
+  read_pages false v [] pages
+  = map (fun p => fst (parse_stream v (S (List.length (fst p))) (snd p) (fst p))) pages.
+Proof.
+  induction pages as [|[ts eof] ps IH]; [reflexivity|].
+  cbn [read_pages map fst snd].
+  pose proof (parse_stream_in_fresh v (S (List.length ts)) eof ts) as F.
+  destruct (parse_stream_in v [] (S (List.length ts)) eof ts) as [[es o] ns'].
+  cbn in F. rewrite <- F, IH. reflexivity.
+Qed.
+
+(** a parser object kept across documents leaks bindings: page 2 uses the prefix "a" it does not
+    declare and is accepted *)
+Definition w_page1 := w_stream [TDelim DObjO; TStr "id"; TStr "a:1"; TDelim DObjC].
+Definition w_page2 := [TDelim DArrO; TDelim DObjO; TStr "id"; TStr "@context"; TStr "namespaces"; TDelim DObjO; TDelim DObjC;
+                       TDelim DObjC; TDelim DObjO; TStr "id"; TStr "a:2"; TDelim DObjC; TDelim DArrC].
+Lemma refuted_parser_reuse :
+  read_pages false fixed [] [(w_page1, true); (w_page2, true)] = [([w_ent "1"], OOk); ([], OErr)]
+  /\ read_pages true fixed [] [(w_page1, true); (w_page2, true)] = [([w_ent "1"], OOk); ([w_ent "2"], OOk)].
+Proof. vm_compute. split; reflexivity. Qed.
